@@ -988,12 +988,12 @@ def gen_case(rng, parallel=False, informational=False):
              ('ignore', 2), ('reset-dep', 5), ('checker', 4)]
     if informational:
         kinds.append(('editKeep', 8))
-    last_run = False
+    last = 'redefine'
     for i in range(n):
         k = _weighted(rng, kinds)
-        if i == n - 1 or (not last_run and rng.random() < 0.25):
+        if i == n - 1 or (last == 'redefine' and rng.random() < 0.6) or (last != 'run' and rng.random() < 0.2):
             k = 'run'
-        last_run = (k == 'run')
+        last = k
         if k == 'run':
             spec = {'sel': None, 'always': rng.random() < 0.08, 'cont': rng.random() < 0.3, 'par': None,
                     'plan': gen_plan(rng, sh, defs)}
@@ -1050,33 +1050,44 @@ def mutate_case(rng, case):
 
 
 EXH_PREFIX = [['edit', 0, 1], ['edit', 1, 2], ['redefine', 0, {'deps': [0], 'targets': [], 'uptodate': []}]]
-EXH_ALPHABET = {
-    'A': ['redefine', 0, {'deps': [0], 'targets': [], 'uptodate': []}],
-    'B': ['redefine', 0, {'deps': [], 'targets': [], 'uptodate': [['const', True]]}],
-    'C': ['redefine', 0, {'deps': [1, 0], 'targets': [], 'uptodate': [['const', True]]}],
-    'R': ['run', {'plan': {}}],
-    'F': ['run', {'plan': {'0': {'ok': False, 'writes': [], 'res': None}}}],
-    'E': ['edit', 0, 3],
-    'T': ['touch', 0],
-    'G': ['forget', [0]],
-    'S': ['reset-dep', [0]],
-}
+_DEF_A = ['redefine', 0, {'deps': [0], 'targets': [], 'uptodate': []}]
+_DEF_B = ['redefine', 0, {'deps': [], 'targets': [], 'uptodate': [['const', True]]}]
+_DEF_C = ['redefine', 0, {'deps': [1, 0], 'targets': [], 'uptodate': [['const', True]]}]
+_RUN = ['run', {'plan': {}}]
+_FAIL = ['run', {'plan': {'0': {'ok': False, 'writes': [], 'res': None}}}]
+# plain alphabet: one op per letter
+EXH_ALPHABET = {'A': [_DEF_A], 'B': [_DEF_B], 'C': [_DEF_C], 'R': [_RUN], 'F': [_FAIL], 'E': [['edit', 0, 3]],
+                'T': [['touch', 0]], 'G': [['forget', [0]]], 'S': [['reset-dep', [0]]]}
+# macro alphabet: a redefinition is immediately followed by a run (histories like F-C03 are 3 letters long)
+EXH_MACRO = {'a': [_DEF_A, _RUN], 'b': [_DEF_B, _RUN], 'c': [_DEF_C, _RUN], 'r': [_RUN], 'f': [_FAIL],
+             'e': [['edit', 0, 3]], 't': [['touch', 0]], 'g': [['forget', [0]]], 's': [['reset-dep', [0]]]}
 
 
-def exhaustive_cases(maxlen):
-    """every history of length <= maxlen over the 9-op alphabet on one task that ends in an observing op
-    (run / failing run / reset-dep); backend and checker rotate"""
-    letters = sorted(EXH_ALPHABET)
-    seqs = ['']
-    out = []
-    n = 0
+def _words(alphabet, maxlen, keep):
+    letters = sorted(alphabet)
+    seqs, out = [''], []
     for _ in range(maxlen):
         seqs = [s + a for s in seqs for a in letters]
-        for s in seqs:
-            if s[-1] in 'RFS' and ('R' in s or 'S' in s[:-1]):
-                out.append({'backend': BACKENDS[n % 3], 'checker': CHECKERS[(n // 3) % 2], 'ntasks': 1, 'npaths': 2,
-                            'ops': EXH_PREFIX + [json.loads(json.dumps(EXH_ALPHABET[a])) for a in s], 'word': s})
-                n += 1
+        out += [s for s in seqs if keep(s)]
+    return out
+
+
+def exhaustive_cases(maxlen, macro_len=None):
+    """every history of length <= maxlen over the 9-op plain alphabet on one task that ends in an observing op
+    (run / failing run / reset-dep) and contains a successful run or reset before it, plus every history of
+    length <= macro_len over the 9-letter macro alphabet (redefine+run fused) ending in an observing letter;
+    backend and checker rotate"""
+    out = []
+    words = [(w, EXH_ALPHABET) for w in _words(EXH_ALPHABET, maxlen,
+                                               lambda s: s[-1] in 'RFS' and ('R' in s[:-1] or 'S' in s[:-1]))]
+    words += [(w, EXH_MACRO) for w in _words(EXH_MACRO, macro_len or 0,
+                                             lambda s: s[-1] in 'abcrfs' and len(s) > 1)]
+    for n, (w, alpha) in enumerate(words):
+        ops = list(EXH_PREFIX)
+        for a in w:
+            ops += alpha[a]
+        out.append({'backend': BACKENDS[n % 3], 'checker': CHECKERS[(n // 3) % 2], 'ntasks': 1, 'npaths': 2,
+                    'ops': json.loads(json.dumps(ops)), 'word': w})
     return out
 
 
@@ -1171,7 +1182,7 @@ def process_batch(arg):
     return st
 
 
-def run_property(ctx, prop, n_random, exh_len, parallel_share=0.0, n_info=0):
+def run_property(ctx, prop, n_random, exh_len, macro_len, parallel_share=0.0, n_info=0):
     rng = ctx.rng
     items = []
     corpus = expand_corpus(prop)
@@ -1187,9 +1198,10 @@ def run_property(ctx, prop, n_random, exh_len, parallel_share=0.0, n_info=0):
             items.append(('random-parallel' if par else 'random', gen_case(r, parallel=par)))
     for i in range(n_info):
         items.append(('informational', gen_case(random_for(ctx, 'info%d' % i), informational=True)))
-    ex = exhaustive_cases(exh_len)
-    ctx.extra['exhaustive_small_scope'] = {'alphabet': len(EXH_ALPHABET), 'max_len': exh_len, 'histories': len(ex),
-                                           'filter': 'ends in run / failing run / reset-dep, contains a run'}
+    ex = exhaustive_cases(exh_len, macro_len)
+    ctx.extra['exhaustive_small_scope'] = {'alphabet': len(EXH_ALPHABET), 'max_len': exh_len, 'macro_alphabet': len(EXH_MACRO),
+                                           'macro_max_len': macro_len, 'histories': len(ex),
+                                           'filter': 'ends in run / failing run / reset-dep; plain words contain an earlier run or reset'}
     for c in ex:
         items.append(('exhaustive', c))
     size = max(8, min(60, len(items) // (common.NCPU * 3) + 1))
